@@ -4,6 +4,9 @@
     ApiListener::UpdateObjectAuthority     lib/remote/apilistener-authority.cpp:13-84
     ConfigObject::SetAuthority             lib/base/configobject.cpp:444-459
     ConfigObject::Activate (run-everywhere) lib/base/configobject.cpp:361-377
+    Checkable::SendNotifications (paused / cold-start stash)   lib/icinga/checkable-notification.cpp:66-110
+    NotificationComponent::NotificationTimerHandler (guards)   lib/notification/notificationcomponent.cpp:138-206
+    CheckerComponent::ObjectHandler (idle set = active ∧ ¬paused) lib/checker/checkercomponent.cpp:291-317
   Core Lean only.
 -/
 namespace Icinga.C10
@@ -79,17 +82,24 @@ def authority (zone : Option (List Name)) (self : Name) (conn : Name → Bool) (
 
 /-! ### ConfigObject::SetAuthority with ghost counters -/
 
+/-- What kind of work an object stands for. -/
+inductive Kind | notification | checkable | other
+  deriving DecidableEq, Repr
+
 /-- What the property looks at of one config object. -/
 structure ObjCfg where
   name : Name
   runOnce : Bool      -- `GetHAMode() == HARunOnce` (configobject.ti:83, default)
   active : Bool       -- `IsActive()`
+  kind : Kind := .other
   deriving DecidableEq, Repr
 
 structure Obj where
   paused : Bool       -- configobject.ti:76, default true
   pauses : Nat        -- ghost: number of `Pause()` calls
   resumes : Nat       -- ghost: number of `Resume()` calls
+  execs : Nat := 0    -- ghost: executions of the notification command / the check command for this object
+  stash : Nat := 0    -- length of a Notification's `stashed_notifications` (notification.ti:80)
   deriving DecidableEq, Repr
 
 /-- configobject.cpp:444-459. -/
@@ -103,6 +113,34 @@ def setAuthority (o : Obj) (authority : Bool) : Obj :=
 def fresh (c : ObjCfg) : Obj :=
   if c.active && !c.runOnce then setAuthority { paused := true, pauses := 0, resumes := 0 } true
   else { paused := true, pauses := 0, resumes := 0 }
+
+/-! ### the work a node does for an object: notifications and checks -/
+
+/-- checkable-notification.cpp:66-110, for one Notification of the checkable a notification is requested for.
+    `updated` = `ApiListener::UpdatedObjectAuthority()`: an authority run has completed in this process.
+    Not yet ⇒ stash; paused ⇒ skip; otherwise send — or stash behind earlier stashed ones to preserve the order. -/
+def requestObj (updated : Bool) (c : ObjCfg) (o : Obj) : Obj :=
+  if c.kind != .notification then o
+  else if !updated then { o with stash := o.stash + 1 }
+  else if o.paused then o
+  else if o.stash > 0 then { o with stash := o.stash + 1 }
+  else { o with execs := o.execs + 1 }
+
+/-- notificationcomponent.cpp:138-206, for one Notification (`enable_ha` at its default true, notifications
+    enabled, checkable reachable, no reminder due).  :139 inactive ⇒ skip.  :146-156 paused and authority known ⇒
+    the stash is dropped.  :159-163 paused on a node with a local endpoint ⇒ skip.  :176-205 otherwise every
+    stashed notification is sent. -/
+def ntimerObj (updated endpoint : Bool) (c : ObjCfg) (o : Obj) : Obj :=
+  if c.kind != .notification || !c.active then o
+  else
+    let o1 : Obj := if o.paused && updated then { o with stash := 0 } else o
+    if o.paused && endpoint then o1
+    else { o1 with execs := o1.execs + o1.stash, stash := 0 }
+
+/-- checkercomponent.cpp:291-317: a checkable is in the scheduler's idle set iff active ∧ ¬paused (objects of the
+    harness have no zone of their own); a due check of an object in the idle set is executed, any other is not. -/
+def dueObj (c : ObjCfg) (o : Obj) : Obj :=
+  if c.kind == .checkable && c.active && !o.paused then { o with execs := o.execs + 1 } else o
 
 /-- apilistener-authority.cpp:63 — the guard of the loop body. -/
 def touched (c : ObjCfg) : Bool := c.active && c.runOnce
@@ -122,13 +160,34 @@ structure Node where
   conn : List Name       -- names of the endpoints with `GetConnected()`
   start : Int            -- `Application::GetStartTime()`, 0 = not set yet
   objs : List Obj
+  updated : Bool := false   -- `ApiListener::m_UpdatedObjectAuthority` (apilistener-authority.cpp:83)
+  endpoint : Bool := true   -- `Endpoint::GetLocalEndpoint()` is non-null (an ApiListener exists)
   deriving Repr
 
 /-- One run of `UpdateObjectAuthority` at time `now` over the objects described by `cfgs`. -/
 def Node.update (cfgs : List ObjCfg) (n : Node) (now : Int) : Node :=
   let f := fun (c : ObjCfg) (o : Obj) =>
     applyVerdict c o (authority n.zone n.self (fun e => n.conn.contains e) n.start now c.name)
-  { n with objs := List.zipWith f cfgs n.objs }
+  -- :46-47 the cold-start return comes before `m_UpdatedObjectAuthority.store(true)` (:83); it does not depend on a name
+  let cold := authority n.zone n.self (fun e => n.conn.contains e) n.start now [] == .keep
+  { n with objs := List.zipWith f cfgs n.objs, updated := n.updated || !cold }
+
+/-- A notification is requested for the checkable all Notification objects of the case belong to. -/
+def Node.request (cfgs : List ObjCfg) (n : Node) : Node :=
+  { n with objs := List.zipWith (requestObj n.updated) cfgs n.objs }
+
+/-- One run of the notification timer. -/
+def Node.ntimer (cfgs : List ObjCfg) (n : Node) : Node :=
+  { n with objs := List.zipWith (ntimerObj n.updated n.endpoint) cfgs n.objs }
+
+/-- `dueObj` on the object at position `i` (`k` = position of the head). -/
+def dueList (i : Nat) : Nat → List ObjCfg → List Obj → List Obj
+  | k, c :: cs, o :: os => (if k == i then dueObj c o else o) :: dueList i (k + 1) cs os
+  | _, _, os => os
+
+/-- Object number `i` becomes due for a check. -/
+def Node.due (cfgs : List ObjCfg) (n : Node) (i : Nat) : Node :=
+  { n with objs := dueList i 0 cfgs n.objs }
 
 /-! ### two members, one object: the system the whole-trace theorem is about -/
 
@@ -144,15 +203,20 @@ inductive Ev
   | link (s : Side) (up : Bool)       -- `s`'s connection to the other member comes up / goes down
   | upd (s : Side) (now : Int)        -- `UpdateObjectAuthority()` on `s` (directly, or the authority timer fired)
   | idle (s : Side)                   -- anything else (a timer pump in which the authority timer was not due)
+  | request (s : Side)                -- a notification is requested on `s` for the object's checkable
+  | ntimer (s : Side)                 -- the notification timer runs on `s`
+  | due (s : Side)                    -- this object (a checkable) becomes due for a check on `s`
   deriving DecidableEq, Repr
 
 def Ev.side : Ev → Side
   | .boot s _ => s | .link s _ => s | .upd s _ => s | .idle s => s
+  | .request s => s | .ntimer s => s | .due s => s
 
 structure Half where
   sees : Bool
   start : Int
   obj : Obj
+  updated : Bool := false
   deriving DecidableEq, Repr
 
 structure Pair where
@@ -173,12 +237,15 @@ def otherOf (nA nB : Name) : Side → Name
   | .A => nB | .B => nA
 
 def stepHalf (l : Layout) (nA nB : Name) (c : ObjCfg) (s : Side) (h : Half) : Ev → Half
-  | .boot _ start => { sees := false, start := start, obj := fresh c }
+  | .boot _ start => { sees := false, start := start, obj := fresh c, updated := false }
   | .link _ up => { h with sees := up }
   | .upd _ now =>
     let v := authority (zoneOf l nA nB s) (selfOf nA nB s) (fun e => h.sees && e == otherOf nA nB s) h.start now c.name
-    { h with obj := applyVerdict c h.obj v }
+    { h with obj := applyVerdict c h.obj v, updated := h.updated || v != .keep }
   | .idle _ => h
+  | .request _ => { h with obj := requestObj h.updated c h.obj }
+  | .ntimer _ => { h with obj := ntimerObj h.updated (l != .noZone) c h.obj }
+  | .due _ => { h with obj := dueObj c h.obj }
 
 def step (l : Layout) (nA nB : Name) (c : ObjCfg) (p : Pair) (e : Ev) : Pair :=
   match e.side with
